@@ -126,15 +126,24 @@ def main():
                 d = c.digest()
                 if d not in seen:
                     seen.add(d)
-                    if mod.nontrivial(c, ml):
+                    try:
+                        if mod.nontrivial(c, ml):
+                            distinct_nontrivial += 1
+                    except KeyError:        # a corpus case carries no generator metadata
                         distinct_nontrivial += 1
-                for k, v in mod.stats(c, ml).items() if hasattr(mod, "stats") else []:
-                    stats[k] = stats.get(k, 0) + v
+                try:
+                    for k, v in mod.stats(c, ml).items() if hasattr(mod, "stats") else []:
+                        stats[k] = stats.get(k, 0) + v
+                except KeyError:
+                    stats["corpus_cases"] = stats.get("corpus_cases", 0) + 1
                 why = None
                 if pi != pm:
                     why = "model and implementation disagree"
                 elif hasattr(mod, "oracle"):
-                    why = mod.oracle(c, il, ctx)
+                    try:
+                        why = mod.oracle(c, il, ctx)
+                    except KeyError:        # oracles that need generator metadata do not apply to corpus cases
+                        why = None
                 if why:
                     disagreements.append((c, il, ml, why))
             for c in cases[:3] + cases[len(cases) // 2: len(cases) // 2 + 2]:
